@@ -59,3 +59,9 @@ package types
 // distinct replica numbers give distinct names (formatting with a fixed width; checked by the bounded stand-in of C13
 // for every replica count up to the stated bound, assumed beyond)
 //@ axiom replica_names_distinct: forall s string, t string, c int, n int, m int {replicaNameOf(s, c, n), replicaNameOf(t, c, m)} :: c > 1 && 0 <= n && n < c && 0 <= m && m < c && n != m ==> replicaNameOf(s, c, n) != replicaNameOf(t, c, m)
+
+// C10: a process that has a health probe is reported ready only once a probe has succeeded.
+//@ func (p *ProcessState) IsReady
+//@   ensures probe-gate: p.HasHealthProbe && p.Health != "Ready" && p.Status != "Disabled" ==> !result
+//@   ensures failed-is-not-ready: p.ExitCode != 0 && p.Status != "Disabled" ==> !result
+//@   assigns nothing
